@@ -59,7 +59,37 @@ pub fn run(args: &crate::common::Args) -> i32 {
                 let t: i64 = rest.trim().parse().expect("instant");
                 match &zone {
                     None => writeln!(w, "T ERR nozone").unwrap(),
-                    Some(z) => match crate::common::guard(|| z.find_local_time_type(t).map(|l| (l.ut_offset(), l.time_zone_designation().to_string(), l.is_dst())).map_err(|e| format!("{e:?}"))) {
+                    Some(z) => match crate::common::guard(|| {
+                        let direct = z.find_local_time_type(t).map(|l| (l.ut_offset(), l.time_zone_designation().to_string(), l.is_dst())).map_err(|e| format!("{e:?}"))?;
+                        // the same question asked through the other public routes (localtime = timestamp + zone; projection of a
+                        // date-time that was obtained in another zone showing the same / another offset): one answer
+                        let zr = z.as_ref();
+                        let mut routes: Vec<(&str, Result<DateTime, tz::TzError>)> = vec![("from_timespec", DateTime::from_timespec(t, 0, zr))];
+                        for (name, off, dst) in [("project from same offset", direct.0, !direct.2), ("project from other offset", direct.0.wrapping_add(3600), direct.2)] {
+                            if let Ok(src) = tz::LocalTimeType::new(off, dst, Some(b"SRC")) {
+                                if let Ok(d0) = DateTime::from_timespec_and_local(t, 0, src) {
+                                    routes.push((name, d0.project(zr)));
+                                }
+                            }
+                        }
+                        if let Ok(u) = tz::UtcDateTime::from_timespec(t, 0) {
+                            routes.push(("UtcDateTime::project", u.project(zr)));
+                        }
+                        for (name, r) in routes {
+                            match r {
+                                Ok(d) => {
+                                    let l = d.local_time_type();
+                                    let got = (l.ut_offset(), l.time_zone_designation().to_string(), l.is_dst());
+                                    if got != direct || d.unix_time() != t {
+                                        return Err(format!("route {name} reports {got:?} at {} but the lookup reports {direct:?} at {t}", d.unix_time()));
+                                    }
+                                }
+                                Err(tz::TzError::OutOfRange) => {}
+                                Err(e) => return Err(format!("route {name} fails with {e:?} where the lookup reports {direct:?}")),
+                            }
+                        }
+                        Ok(direct)
+                    }) {
                         Ok(Ok((o, n, d))) => writeln!(w, "T {o} {} {}", if n.is_empty() { "-" } else { &n }, d as u8).unwrap(),
                         Ok(Err(e)) => writeln!(w, "T ERR {e}").unwrap(),
                         Err(m) => writeln!(w, "T ERR PANIC {m}").unwrap(),
